@@ -251,6 +251,32 @@ def run(ctx: Ctx) -> int:
                 details={"need": sorted(need), "have": sorted(have)},
             )
     ctx.floor("C03.R4", n_r4, 8)
+    # the per-class / per-dataclass parsers are built with exit_on_error=False: their ArgumentError must be converted
+    # by every arm that calls them (the parse entries convert only TypeError/KeyError; _check_type only TypeError/ValueError)
+    def _covers_argerr(c: ast.Call) -> bool:
+        for t, part in enclosing_trys(c):
+            if part == "body":
+                names = set()
+                for h in t.handlers:
+                    names |= set(handler_type_names(h))
+                if names & {"ArgumentError", "argparse.ArgumentError", "Exception", "BaseException"}:
+                    return True
+        return False
+
+    n_inner = 0
+    adt = ctx.func("_typehints:adapt_typehints")
+    for c in calls_in(adt):
+        if call_leaf(c) in ("parse_object", "parse_args") and root_name(c.func) == "parser":
+            n_inner += 1
+            ok = _covers_argerr(c)
+            ctx.oblige("C03.R4", ok, c, "the inner parser's ArgumentError is converted by this arm" if ok else f"{src(c, 60)} runs a parser built with exit_on_error=False outside any handler for ArgumentError: its ArgumentError propagates through _check_type (TypeError/ValueError only) and the parse entries (TypeError/KeyError only), so with exit_on_error=True the caller gets an exception instead of exit status 2", fn=adt)
+    for c in calls_in(adt):
+        if call_leaf(c) == "adapt_class_type":
+            n_inner += 1
+            ok = _covers_argerr(c)
+            ctx.oblige("C03.R4", ok, c, "adapt_class_type (runs the per-class parser) is called inside a handler for ArgumentError" if ok else "adapt_class_type is called outside any handler for ArgumentError", fn=adt)
+    ctx.floor("C03.R4-inner-parser-calls", n_inner, 4)
+
     # _check_value_key: the plain `type=` arm converts (TypeError, ValueError)
     cvk = ctx.func("_core:ArgumentParser._check_value_key")
     tcalls = [c for c in calls_in(cvk) if ast.unparse(c.func) == "action.type"]
@@ -401,6 +427,33 @@ def run(ctx: Ctx) -> int:
             ok, why = fn_covered(fn, 2, {id(fn)})
             ctx.oblige("C03.R5", ok, c, why if ok else f"a loader failure here is not anticipated: {why}", fn=fn)
     ctx.floor("C03.R5-sites", n_r5, 10)
+
+    # ---------------- E6 (thorough tier, informational) ---------------------------
+    if ctx.tier == "thorough":
+        from .callgraph import CallGraph
+        from .excflow import ExcFlow
+
+        cg = CallGraph(repo)
+        acts = [q for q in cg.funcs if q.endswith(".__call__") and not q.startswith(("_deprecated:", "_common:", "_util:"))]
+        dispatch = {"_core:ArgumentParser.parse_known_args": acts + ["_core:ArgumentParser._parse_optional"]}
+        ef = ExcFlow(repo, cg)
+        roots = [f"_core:ArgumentParser.{n}" for n in PARSE_ENTRIES]
+        ef.analyse(roots, dispatch)
+        summary = {}
+        for r in roots:
+            by: Dict[str, int] = {}
+            for t, o in ef.esc.get(r, ()):  # type: ignore[arg-type]
+                by[t] = by.get(t, 0) + 1
+            summary[r.split(".")[-1]] = dict(sorted(by.items()))
+        ctx.extra["escape_candidates_E6"] = {
+            "status": "informational only - not an obligation",
+            "why": "explicit raise sites (typed) that no handler written on a call-graph path to the parse entry catches. The call graph cannot separate parser-construction-time raises "
+            "(add_class_arguments, link set-up, Path._check_mode ...) reached through get_class_parser from parse-time ones, so the residue (dozens of ValueError sites) is dominated by "
+            "infeasible paths; as DESIGN.md section 3/C03 foresaw, E6 is therefore not armed and C03 rests on R1-R5.",
+            "functions_analysed": len(ef.esc),
+            "fixpoint_iterations": ef.iterations,
+            "by_entry_and_type": summary,
+        }
 
     ctx.assumptions += [
         "KeyError/TypeError raised below a parse entry are converted by its handler; implicit exceptions of other types (AttributeError, RecursionError, ...) are not modelled",
